@@ -635,6 +635,9 @@ func init() {
 			})
 		}
 		fmt.Fprintf(&sb, "/-- shard index of a written row -/\ndef shardIdxExpr : String := %q\n", shardExpr)
+		if err := c12CollectFacts(repo, &sb); err != nil {
+			return "", err
+		}
 		return sb.String(), nil
 	}})
 }
